@@ -63,15 +63,20 @@ CfgOf(c) == [name |-> c.name, nlevels |-> c.nlevels,
 (* Pre: model steps that precede the observation point.  Returns [st, errs] *)
 R(s, e) == [st |-> s, errs |-> e]
 
-\* local searches (and nothing else) may run silently before the deme `target` gets its turn
-RECURSIVE Advance(_, _, _, _)
-Advance(s, B, target, errs) ==
+\* Local searches consult nothing: those that ran since the previous event are recognised by their objective calls (or,
+\* when calls may be invisible - budget refusals, memoised values - by the observed tree showing them stopped).  The
+\* order in which the demes of a metaepoch get their turn is not assumed.
+RanSilently(s, B, sn, h) ==
+    /\ Eng(s, h) = "LOCAL" /\ s.D[h].active
+    /\ \/ BatchCalls(B, h) > 0
+       \/ ((s.cfg.cutoff = 1 \/ s.cfg.cache = 1) /\ h \in SnapIds(sn) /\ SnapRec(sn, h).act = 0)
+RECURSIVE Advance(_, _, _, _, _)
+Advance(s, B, sn, target, errs) ==
     IF s.pc # "meta" \/ s.cur # NoDeme \/ s.queue = <<>> THEN R(s, errs)
-    ELSE LET h == Head(s.queue) IN
-         IF h = target THEN R(s, errs)
-         ELSE IF Eng(s, h) = "LOCAL" /\ (BatchCalls(B, h) > 0 \/ s.cfg.cutoff = 1 \/ s.cfg.cache = 1)
-              THEN Advance(DoLocalRun(s, h, BatchCalls(B, h)), B, target, errs)
-              ELSE R(s, errs)      \* an awake deme that did not run: left to C06_SteppedExactlyOnce on the snapshot
+    ELSE LET ran == {i \in DOMAIN s.queue : s.queue[i] # target /\ RanSilently(s, B, sn, s.queue[i])} IN
+         IF ran = {} THEN R(s, errs)
+         ELSE LET h == s.queue[CHOOSE i \in ran : \A j \in ran : i <= j]
+              IN Advance(DoLocalRun(s, h, BatchCalls(B, h)), B, sn, target, errs)
 
 RECURSIVE InitAll(_, _)
 InitAll(s, B) == IF s.pendingInit = <<>> THEN s
@@ -111,9 +116,9 @@ ImplicitLoopHead(s, e) ==
 
 PreAt(s, e) ==
     CASE e.e = "gsc" /\ e.by = "deme" ->
-           LET a == Advance(s, e.b, e.d, {})
+           LET a == Advance(s, e.b, e.snap, e.d, {})
                s1 == a.st
-               s2a == IF s1.cur = NoDeme /\ EnBegin(s1, e.d) /\ e.d \in Ids(s1) /\ Eng(s1, e.d) # "LOCAL"
+               s2a == IF s1.cur = NoDeme /\ EnBeginAny(s1, e.d) /\ e.d \in Ids(s1) /\ Eng(s1, e.d) # "LOCAL"
                       THEN DoBegin(s1, e.d) ELSE s1
                \* the deme consults the global condition again although the model has already closed its metaepoch
                \* after the configured number of generations: the number of generations per metaepoch is mechanism,
@@ -134,9 +139,9 @@ PreAt(s, e) ==
       [] e.e = "lsc" ->     \* a local condition consulted outside the protocol is a stutter of the model: if it
                             \* stops the deme, the next snapshot shows a deme that stopped without a cause
            IF e.d \in Ids(s) /\ EnLsc(s, e.d) THEN R(s, {})
-           ELSE LET a == Advance(s, e.b, e.d, {}) IN R(a.st, a.errs \cup {"Desync"})   \* local searches before it still ran
+           ELSE LET a == Advance(s, e.b, e.snap, e.d, {}) IN R(a.st, a.errs \cup {"Desync"})   \* local searches before it still ran
       [] e.e = "gsc" /\ e.by = "step" ->
-           LET a == Advance(s, e.b, NoDeme, {}) IN
+           LET a == Advance(s, e.b, e.snap, NoDeme, {}) IN
            IF EnPostGsc(a.st) THEN a ELSE R(Force(a.st, e), a.errs \cup {"Desync"})
       [] e.e = "gsc" /\ e.by = "run" ->
            LET s0 == IF s.pc = "sprout" THEN [s EXCEPT !.pc = "loop"] ELSE s     \* no round was attempted
